@@ -21,7 +21,26 @@ func setNow(d time.Duration) {
 // Elapsed returns the virtual time elapsed in the current run.
 func Elapsed() time.Duration { return time.Duration(nowMirror.Load()) }
 
+// SetClockStep makes every later clock read of this run an environment choice: the default
+// answer is "no time has passed since the previous operation", the alternative (one
+// deviation) is "the clock has moved on by d" - real time does not stand still between two
+// reads inside one operation.  Reset at the start of every run.
+func SetClockStep(d time.Duration) { s.clockStep = d }
+
 func Now() time.Time {
+	if s.clockStep > 0 {
+		if t := me(); t != nil && t == s.cur && s.envChoice(2, 1) == 1 {
+			target := s.now + s.clockStep
+			for {
+				vt := s.earliest(target, true)
+				if vt == nil {
+					break
+				}
+				s.fire(vt)
+			}
+			setNow(target)
+		}
+	}
 	if s.hbOn {
 		if t := me(); t != nil {
 			s.acc(t, kClock, false)
